@@ -17,3 +17,5 @@ open RV.C18
 #print axioms contexts_kept_by_rollback
 #print axioms new_graph_name_survives_rollback
 #print axioms code_two_wrappers_disjoint
+#print axioms graph_level_history_refines_spec
+#print axioms graph_level_ops_meaning
